@@ -215,7 +215,7 @@ func (g *gen) mine() bool {
 }
 
 func (g *gen) expired() bool {
-	if g.cfg.EmitAt >= 0 {
+	if g.cfg.EmitOut != "" {
 		return g.stop // regenerate the stream until the wanted case, whatever the clock says
 	}
 	return g.stop || time.Now().After(g.cfg.Deadline)
@@ -233,7 +233,7 @@ func hashCase(c *Case) uint64 {
 func (g *gen) run(c *Case, nontrivial bool) {
 	seq := g.seq
 	g.seq++
-	if g.cfg.EmitAt >= 0 {
+	if g.cfg.EmitOut != "" {
 		if seq == g.cfg.EmitAt {
 			raw, _ := json.Marshal(c)
 			os.WriteFile(g.cfg.EmitOut, raw, 0o644)
@@ -367,7 +367,7 @@ func genBases() []base {
 func Worker(cfg Config) *evid.Stats {
 	st := evid.NewStats()
 	g := &gen{cfg: cfg, st: st, env: &Env{Scratch: cfg.Scratch, Stats: st}, vcap: 8}
-	if cfg.Journal != "" && cfg.EmitAt < 0 {
+	if cfg.Journal != "" && cfg.EmitOut == "" {
 		g.journal, _ = os.Create(cfg.Journal)
 	}
 	switch cfg.Prop {
